@@ -1,10 +1,10 @@
 SPECIFICATION SpecB
 CONSTANTS
   MaxBlocks = 2
-  MaxReqs = 1
+  MaxReqs = 2
   Templates = {"o23", "ret", "jmp"}
-  PatchKinds = {"plain2", "loop", "ret"}
-  FnLayouts = {"none", "one"}
+  PatchKinds = {"plain2", "loop", "ret", "jmpsym", "callsym"}
+  FnLayouts = {"none", "one", "split"}
   EndSyms = {TRUE, FALSE}
   NoSyms = {FALSE}
   AnnModes = {"none"}
